@@ -1674,22 +1674,31 @@ struct TcpEngine : Engine
 				"pauses, closes and reconnects on reused socket objects, over routes of 1-3 queue hops per direction (some finite) with a scripted fault "
 				"sink per direction that drops the n-th droppable segment (with drop notification) or delays the n-th packet; thorough adds all 3^7 "
 				"assignments of pass/drop/delay to the first 7 segments of a fixed transfer. Every delivered byte is checked against its stream offset; "
-				"EOF placement; stale data on reuse. distinct = distinct shape hash; non-trivial = bytes were delivered and a fault fired, a queue dropped, or a socket was reused";
+				"EOF placement; stale data on reuse. Swarm options per run: hand-over of a live connection to another socket object, reads sized after available(), "
+				"polling read_some next to a pending read, writes before the connect handler, cancel() on established sockets, connects abandoned in flight towards a decoy "
+				"listener, application timers coinciding with queue timers or armed in the past, the client on the port it dials, IPv6 instead of IPv4, accept targets "
+				"opened for the other family, routes that lose segments but defer nothing. distinct = distinct shape hash; non-trivial = bytes were delivered and a fault fired, a queue dropped, or a socket was reused";
 		if (prop == "C06")
 			return "seeded bulk transfers (1 B - 2 MB) on established connections whose sockets stay open, through 1-3 queue hops each way with bandwidth "
 				"0 or 5 kB/s-50 MB/s, latency 0-500 ms, capacity unlimited or from one segment up to 4 MB (bottleneck sender side, core or receiver side); "
 				"with finite queues payload flows one direction per phase and phases end at quiescent returns of run(); no fault sinks. At every quiescent "
-				"return delivered==accepted, no write pending, all offered bytes accepted; watchdog for livelock. distinct = distinct shape hash; "
+				"return delivered==accepted, no write pending, all offered bytes accepted; a connect the acceptor answered completes; watchdog for livelock. In 30% of "
+				"the runs a second connection shares the queues: idle and re-made at random, or one scripted exchange (greet, answer, hand over, close, connect again "
+				"on the moved-from object, write). Also cancel() some time after writes, ping-pong exchanges, application timers next to the queues'. distinct = distinct shape hash; "
 				"non-trivial = bytes were delivered and a queue tail-dropped at least one packet";
 		if (prop == "C19")
 			return "the C05 program generator (1-3 IPv4 TCP connections, both directions, finite queues and fault sinks causing retransmission, closes, reconnects) plus UDP "
 				"datagrams, with capture enabled; after the simulation is destroyed the file is parsed by an independent reader (models/pcap_reader.hpp) and compared record by "
 				"record with what the first-hop probes saw being transmitted: count, order, lengths, addresses, ports, payload hash, timestamp = capture epoch + virtual send time, "
-				"TCP sequence number = bytes previously transmitted in that direction. distinct = distinct shape hash; non-trivial = bytes were delivered and a fault fired, a queue "
+				"TCP sequence number = bytes previously transmitted in that direction. Some senders sit behind a NAT, streams pause for simulated hours, timers are armed in the "
+				"past, accept targets are opened for the other family, some routes lose segments but defer nothing. distinct = distinct shape hash; non-trivial = bytes were delivered and a fault fired, a queue "
 				"dropped or a socket was reused";
 		return "seeded path-MTU values 64-9000 for the address pair, TCP transfers in both directions with write sizes around multiples of the MTU, probes on "
 			"every hop (no segment above the MTU, every segment identical at every hop), and UDP sends of MTU-2..MTU+2 / 65535 / small with the "
-			"don't-fragment option never touched / set via IP_MTU_DISCOVER or IP_DONTFRAGMENT / cleared. distinct = distinct shape hash; non-trivial = bytes were delivered";
+			"don't-fragment option never touched / set via IP_MTU_DISCOVER or IP_DONTFRAGMENT / cleared. The UDP part runs between two multi-homed nodes with a path MTU of "
+			"its own for each (local, destination) address pair, including a destination on the sender's own node; the sender is re-bound to its other address, moved to "
+			"another object, and in some runs sends in bursts behind a small send buffer. Some connectors sit behind a NAT, some runs use IPv6. distinct = distinct shape hash; "
+			"non-trivial = bytes were delivered";
 	}
 	int64_t budget(std::string const& prop, int tier) const override
 	{
